@@ -55,13 +55,17 @@ func (_this *edgeBuilder) tryFinish(ctx *Context) {
 	const maxIndex = 3
 	_this.index++
 	if _this.index >= maxIndex {
-		obj := reflect.New(reflect.TypeOf(types.Edge{})).Elem()
-		obj.Field(types.EdgeFieldIndexSource).Set(_this.components[0])
-		obj.Field(types.EdgeFieldIndexDescription).Set(_this.components[1])
-		obj.Field(types.EdgeFieldIndexDestination).Set(_this.components[2])
-		ctx.UnstackBuilder()
-		ctx.CurrentBuilder.NotifyChildContainerFinished(ctx, obj)
+		_this.finish(ctx)
 	}
+}
+
+func (_this *edgeBuilder) finish(ctx *Context) {
+	obj := reflect.New(reflect.TypeOf(types.Edge{})).Elem()
+	obj.Field(types.EdgeFieldIndexSource).Set(_this.components[0])
+	obj.Field(types.EdgeFieldIndexDescription).Set(_this.components[1])
+	obj.Field(types.EdgeFieldIndexDestination).Set(_this.components[2])
+	ctx.UnstackBuilder()
+	ctx.CurrentBuilder.NotifyChildContainerFinished(ctx, obj)
 }
 
 func (_this *edgeBuilder) BuildFromNull(ctx *Context, _ reflect.Value) reflect.Value {
@@ -191,4 +195,7 @@ func (_this *edgeBuilder) NotifyChildContainerFinished(ctx *Context, value refle
 }
 
 func (_this *edgeBuilder) BuildArtificiallyEndContainer(ctx *Context) {
+	// The document ended early: finish with the components built so far, so
+	// that Context.ArtificiallyTerminate can unwind the builder stack.
+	_this.finish(ctx)
 }
